@@ -166,10 +166,15 @@ class Fam:
             p["types"] = rng.chance(1, 2)
             for _ in range(rng.weighted([(0, 3), (1, 4), (2, 2)])):
                 nm = "h%d.h" % len(self.incs)
-                self.incs[nm] = {"k": rng.range(1, 50), "nested": None}
+                if rng.chance(1, 4):
+                    # a header that lives in the include directory (found through the search path, by its bare name)
+                    nm = "c17g_%s_h%d.h" % (cid, len(self.incs))
+                    self.incs[nm] = {"k": rng.range(1, 50), "nested": None, "global": True}
+                else:
+                    self.incs[nm] = {"k": rng.range(1, 50), "nested": None}
                 p["inc"].append(nm)
         # one nested include now and then
-        names = sorted(self.incs)
+        names = sorted(n for n in self.incs if not self.incs[n].get("global"))
         if len(names) >= 2 and rng.chance(1, 2):
             self.incs[names[0]]["nested"] = names[1]
             for p in self.progs:                     # a file must not be included twice by the same program
@@ -303,6 +308,12 @@ class Fam:
         return "%s/%s" % (self.dir, self.progs[i]["file"])
 
     def inc_path(self, nm):
+        d = self.incs.get(nm, {})
+        if d.get("global") and not d.get("shadowed"):
+            return "include/%s" % nm
+        return "%s/%s" % (self.dir, nm)
+
+    def local_path(self, nm):
         return "%s/%s" % (self.dir, nm)
 
     def inc_text(self, nm):
@@ -322,6 +333,8 @@ class Fam:
         if p.get("sb") == "inc-top":
             out.append(self.inc_path(p["sbinc"]))
         for nm in p["inc"]:
+            if self.incs[nm].get("global") and not self.incs[nm].get("shadowed"):
+                out.append("!" + self.local_path(nm))      # looked for next to the source first: noted as missing
             out.append(self.inc_path(nm))
             if self.incs[nm]["nested"]:
                 out.append(self.inc_path(self.incs[nm]["nested"]))
@@ -415,6 +428,10 @@ def sys_case(rng, cid, steps=None, nprog=None, big=False, script=None, mode=None
         L.append("file /%s %s" % (fam.inc_path(nm), hx(fam.inc_text(nm))))
         L.append("mtime /%s %d" % (fam.inc_path(nm), t))
         t += 1
+    for i in range(len(fam.progs)):
+        for nm in fam.progs[i]["inc"]:
+            if fam.incs[nm].get("global"):
+                L.append("incsearch %s %s %s" % (fam.path(i), fam.local_path(nm), fam.inc_path(nm)))
     for i in reversed(range(len(fam.progs))):
         L.append("file /%s %s" % (fam.path(i), hx(fam.text(i))))
         L.append("mtime /%s %d" % (fam.path(i), t))
@@ -458,7 +475,7 @@ def sys_case(rng, cid, steps=None, nprog=None, big=False, script=None, mode=None
             script.append(rng.weighted([("nothing", 6), ("edit-src", 3), ("edit-inc", 3), ("touch-inh", 2), ("touch-src", 2),
                                         ("touch-inc", 1), ("simul-restart", 2), ("restart", 1), ("equal-inc", 1),
                                         ("simul-norestart", 1), ("edit-parent-inc", 2), ("damage", 2), ("foreign", 2), ("moved", 1), ("badload", 1),
-                                        ("parent-noreload", 3), ("parent-drops-pragma", 3), ("parent-refused", 3)]))
+                                        ("parent-noreload", 3), ("parent-drops-pragma", 3), ("parent-refused", 3), ("shadow-inc", 3)]))
     for act in script:
         t += 1
         which = None
@@ -568,6 +585,18 @@ def sys_case(rng, cid, steps=None, nprog=None, big=False, script=None, mode=None
                     fam.progs[i]["k"] += 1
                     L.append("file /%s %s" % (fam.path(i), hx(fam.text(i))))
                     L.append("mtime /%s %d" % (fam.path(i), t))
+        elif act == "shadow-inc":
+            # a header found in the include directory gets a namesake next to the sources (older or newer than everything)
+            cand = [nm for nm in sorted(fam.incs) if fam.incs[nm].get("global") and not fam.incs[nm].get("shadowed")]
+            if cand:
+                nm = rng.choice(cand)
+                fam.incs[nm]["shadowed"] = True
+                fam.incs[nm]["k"] += 1
+                L.append("file /%s %s" % (fam.inc_path(nm), hx(fam.inc_text(nm))))
+                L.append("mtime /%s %d" % (fam.inc_path(nm), rng.choice([t, 900, 950])))
+                for i in range(len(fam.progs)):
+                    if nm in fam.progs[i]["inc"]:
+                        L.append(fam.decl(i))
         elif act == "parent-drops-pragma":
             # the header that carries a parent's `#pragma save_binary` is edited and loses it: the parent is compiled again
             # but not saved again, its binary on disk is a leftover older than what the parent in memory was built from
@@ -691,6 +720,15 @@ def boundary():
                          mode=["reloadp", "reload"][seed % 2])
             c.id = "b-sys-refused-resave-%d-%d" % (k, seed)
             B.append(c)
+    # a header in the include directory is shadowed by a new file next to the sources (seeds chosen so that the family has one)
+    nsh = 0
+    for seed in range(7700, 7760):
+        c = sys_case(E.Rng(seed), "h%d" % seed, nprog=2 + seed % 2, script=["shadow-inc", "nothing", "edit-inc"],
+                     mode=["reloadp", "reload"][seed % 2])
+        if any(l.startswith("incsearch ") for l in c.lines) and nsh < 8:
+            c.id = "b-sys-shadow-inc-%d" % seed
+            B.append(c)
+            nsh += 1
     for k in range(4):
         c = sys_case(E.Rng(7300 + k), "e%d" % k, nprog=2, script=["badload", "nothing"], mode="reload")
         c.id = "b-sys-badload-%d" % k
